@@ -123,9 +123,11 @@ Section Subst.
   Qed.
 
   Lemma const_op_value op w vs r : frag_op op = true -> 0 < w -> Forall (fun v => 0 <= v) vs -> hd 0 vs < 2 ^ w ->
-    (is_shift op = true -> List.length vs = 2%nat) -> eval_const_op op w vs = Ok r -> wrap w r = eval_op iota op w vs.
+    (is_shift op = true -> List.length vs = 2%nat) ->
+    match opk_of op with OEq => List.length vs = 2%nat | OParity => List.length vs = 1%nat | _ => True end ->
+    eval_const_op op w vs = Ok r -> wrap w r = eval_op iota op w vs.
   Proof.
-    unfold frag_op, is_shift, eval_const_op, eval_op. intros F Hw Nn Hd Ln H. destruct (opk_of op); try discriminate.
+    unfold frag_op, is_shift, eval_const_op, eval_op. intros F Hw Nn Hd Ln La H. destruct (opk_of op); try discriminate.
     - destruct vs as [|v l]; inversion H. cbn [fold_left]. rewrite Z.add_0_l. reflexivity.
     - destruct vs as [|v l]; inversion H. cbn [fold_left]. rewrite Z.mul_1_l. reflexivity.
     - destruct vs as [|v l]; inversion H. cbn [fold_left]. rewrite Z.lxor_0_l. reflexivity.
@@ -146,6 +148,14 @@ Section Subst.
       pose proof (sgn_bound w a Hw) as B. f_equal.
       destruct (Z_le_gt_dec c w) as [L|L]; [f_equal; lia|].
       rewrite (Z.min_r c w) by lia. apply sar_sat; lia.
+    - destruct vs as [|a [|b [|? ?]]]; try discriminate. inversion H; subst r. destruct (a =? b); [reflexivity|]. unfold wrap. apply Z.mod_0_l. apply Z.pow_nonzero; lia.
+    - destruct vs as [|a [|? ?]]; try discriminate. inversion H; subst r. reflexivity.
+  Qed.
+  Lemma op_ok_arity op args : op_ok op args = true ->
+    match opk_of op with OEq => List.length args = 2%nat | OParity => List.length args = 1%nat | _ => True end.
+  Proof.
+    unfold op_ok. destruct args as [|a r]; [discriminate|]. intros H. apply andb_true_iff in H as [_ H].
+    destruct (opk_of op); try exact I; apply Nat.eqb_eq; exact H.
   Qed.
 
   Lemma ints_nonneg ints : forallb wfq (map (fun '(sg, w, v) => EInt sg w v) ints) = true -> Forall (fun v => 0 <= v) (map (fun '(_, _, v) => v) ints).
@@ -157,6 +167,10 @@ Section Subst.
   Lemma shift_len op n (ints : list (bool * Z * Z)) (f : bool * Z * Z -> expr) : args_ok op n (map f ints) = true ->
     is_shift op = true -> List.length (map (fun '(_, _, v) => v) ints) = 2%nat.
   Proof. unfold args_ok. intros A S. rewrite S in A. rewrite map_length in *. apply Nat.eqb_eq. exact A. Qed.
+
+  Lemma arity_vs op (ints : list (bool * Z * Z)) : op_ok op (map (fun '(sg, w, v) => EInt sg w v) ints) = true ->
+    match opk_of op with OEq => List.length (map (fun '(_, _, v) => v) ints) = 2%nat | OParity => List.length (map (fun '(_, _, v) => v) ints) = 1%nat | _ => True end.
+  Proof. intros H. pose proof (op_ok_arity _ _ H) as A. rewrite map_length in *. exact A. Qed.
 
   Lemma consts_rel op args e' : wfq (EOp op args) = true -> eval_op_consts op args = inl (Ok e') ->
     wfq e' = true /\ size e' = size (EOp op args) /\ ev e' = ev (EOp op args).
@@ -179,7 +193,7 @@ Section Subst.
        destruct (wf_int IdQ rho mu iota w0 rv P0) as (A & B & Cv);
        split; [exact A|]; split; [rewrite B; symmetry; apply (size_node op); simpl; lia|];
        rewrite Cv, eval_op_node, size_node by (simpl; lia); cbn [size];
-       rewrite (const_op_value op w0 _ rv F ltac:(lia) (ints_nonneg ((false, w0, v0) :: rest) Wl) ltac:(cbn [map hd]; apply (wf_int_inv IdQ rho mu iota _ _ _ W0)) (shift_len op _ ((false, w0, v0) :: rest) (fun '(sg, w, v) => EInt sg w v) S) C); f_equal;
+       rewrite (const_op_value op w0 _ rv F ltac:(lia) (ints_nonneg ((false, w0, v0) :: rest) Wl) ltac:(cbn [map hd]; apply (wf_int_inv IdQ rho mu iota _ _ _ W0)) (shift_len op _ ((false, w0, v0) :: rest) (fun '(sg, w, v) => EInt sg w v) S) (arity_vs op ((false, w0, v0) :: rest) O) C); f_equal;
        (* the values of in-range unsigned constants are their payloads *)
        clear - Wl; apply forallb_Forall in Wl;
        change (EInt false w0 v0 :: map (fun '(sg, w, v) => EInt sg w v) rest) with (map (fun '(sg, w, v) => EInt sg w v) ((false, w0, v0) :: rest)) in *;
